@@ -308,7 +308,7 @@ def run_check(modname, tier='quick', seed=0):
     level = getattr(mod, 'LEVEL', 'proof')
     fn_rows = [{k: r.get(k) for k in ('function', 'src_sha256', 'lines', 'paths', 'paths_reaching_post', 'obligations',
                                       'discharged', 'failed', 'undecided', 'wall_s', 'solver_ms', 'pre_sat', 'error',
-                                      'query_instances')} for r in results]
+                                      'query_instances', 'contract')} for r in results]
     samples = []
     for r in results[:6]:
         for o in r['obligation_list'][:3]:
